@@ -89,6 +89,30 @@ def negotiateSegs (s : St) (segs : List Bytes) : St := segs.foldl negotiate s
 /-- `Open`: fresh `Telnet` value, empty `ctrlBuf` -/
 def openWith (bs : Bytes) : St := negotiate {} bs
 
+/-! ### the same `Telnet` object opened again
+
+Of the parser's state only `initialBuf` lives on the object (`ctrlBuf` is a local of
+`handleControlChars`, `c` is replaced by the new dial), and `Open` does not clear it. -/
+
+/-- `Open` on an object whose `initialBuf` still holds `leftover` (bytes buffered by an earlier
+opening that no `Read` handed out, e.g. because that `Open` failed) -/
+def openOn (leftover : Bytes) (bs : Bytes) : St := negotiate { data := leftover } bs
+
+/-- one opening in the life of a transport object: the bytes that arrived during its negotiation
+phase and whether the caller read afterwards (`Read` hands out and clears a non-empty
+`initialBuf`; after a failed `Open` nobody reads) -/
+structure Opening where
+  bytes : Bytes
+  drained : Bool
+deriving DecidableEq, Repr
+
+/-- the parser results of consecutive openings of one object -/
+def history : Bytes → List Opening → List St
+  | _, [] => []
+  | leftover, o :: os =>
+    let s := openOn leftover o.bytes
+    s :: history (if o.drained then [] else s.data) os
+
 /-- the connection after `Open`, as `Telnet.Read` sees it: `initialBuf` and the chunks that later
 `c.Read` calls on the socket will return, in order -/
 structure Conn where
